@@ -112,7 +112,8 @@ TAccess ==
            site == Field("site", "")
            old == IF key \in DOMAIN last THEN last[key] ELSE {}
            kept == {p \in old : ~(p.t = t /\ p.w = Ev.w /\ p.a = Ev.a /\ p.locks = locks /\ p.site = site)}
-       IN  /\ ReportAt(IF racing = {} THEN {} ELSE {"dataRace"}, Ev.res, {<<p.site, site>> : p \in racing})
+       IN  /\ ReportAt(IF racing = {} THEN {} ELSE {"dataRace"}, Ev.res,
+                       {<<p.site, p.locks # {}, site, locks # {}>> : p \in racing})   \* site, owned a lock?, twice
            /\ vc' = Put(vc, t, Put(mine, t, c))
            /\ last' = Put(last, key, kept \cup {[t |-> t, c |-> c, w |-> Ev.w, a |-> Ev.a, locks |-> locks,
                                                   site |-> site]})
